@@ -323,3 +323,48 @@ def iterrowmapmany(h):
             if failed:
                 ctx.oblige('iterrowmapmany(failonerror=%r): a failing generator is not re-raised under this policy' % (policy,), z3.BoolVal(policy is not True))
         h.explore(body)
+
+
+CV = 'petl.transform.conversions.'
+from pyvc.interp import PyExc
+@vc('C19.methodcaller', functions=[CV + 'methodcaller'], props=['C19', 'C12'],
+    assumptions=['a method of a cell value is an uninterpreted partial function of (value, arguments): calling it on a value that does not '
+                 'have it raises AttributeError (T6)'])
+def methodcaller_contract(h):
+    for nargs in (0, 2):
+        def body(ctx, nargs=nargs):
+            it = h.interp(ctx)
+            v = sym_cell('v')
+            args = [sym_cell('a%d' % i) for i in range(nargs)]
+            conv = it.call(closure_of(it, CV + 'methodcaller'), ['meth'] + args, {})
+            f = z3.Function('meth_meth_%d' % nargs, *([V] * (nargs + 2)))
+            ok = z3.Function('meth_meth_%d_ok' % nargs, *([V] * (nargs + 1) + [z3.BoolSort()]))
+            vs = [v.t] + [a.t for a in args]
+            try:
+                r = it.call(conv, [v], {})
+            except PyExc as e:
+                ctx.oblige('methodcaller(name, *args)(v): raises exactly when v has no such method (AttributeError) -- for EVERY v, None included',
+                           z3.And(z3.BoolVal(e.kind == 'AttributeError'), z3.Not(ok(*vs))))
+                return
+            ctx.oblige('methodcaller(name, *args)(v): the result of v.name(*args) whenever v has the method; never a silent pass-through',
+                       z3.And(ok(*vs), as_v(r) == f(*vs)))
+        h.explore(body)
+
+
+@vc('C19.dictconverter', functions=[CV + 'dictconverter'], props=['C19', 'C12'],
+    assumptions=['dict membership / lookup modulo == (T6); a one-entry dictionary with symbolic key and value'])
+def dictconverter_contract(h):
+    def body(ctx):
+        it = h.interp(ctx)
+        v, k, w = sym_cell('v'), sym_cell('k'), sym_cell('w')
+        d = bi.SDict(it)
+        d.setitem(it, k, w)
+        conv = it.call(closure_of(it, CV + 'dictconverter'), [d], {})
+        try:
+            r = it.call(conv, [v], {})
+        except PyExc as e:
+            ctx.oblige('dictconverter: never raises', z3.BoolVal(False), e.origin or '')
+            return
+        ctx.oblige('dictconverter(d)(v): d[v] when v is a key of d, v itself otherwise',
+                   as_v(r) == z3.If(smt.py_eq(v.t, k.t), w.t, v.t))
+    h.explore(body)
